@@ -932,6 +932,12 @@ class Scheduler:
                 # sched_op is not part of the sub-schedule - skip
                 continue
 
+            if is_nearest(sched_op.resampling_mode) and stripe.height % 2 != 0:
+                # An Op with nearest upscaling replicates the rows of its IFM stripe from the first row on, so it
+                # cannot start an OFM stripe on an odd row. This also holds for the last Op of the (sub-)schedule,
+                # whose stripe is the proposed final stripe itself
+                stripe = stripe.with_height(stripe.height + 1)
+
             # Create a cost entry with the new stripe
             cost = sched_op.create_scheduler_info(self.nng, stripe)
 
